@@ -1,0 +1,34 @@
+//go:build verif
+
+package compress
+
+// Machine-checked contracts for package compress (comment-only; read by /verif/govc).
+
+//@ import io io
+
+// ---------------------------------------------------------------------------
+// C05: compressed frames
+
+//@ -- stored checksum == CityHash128(method, sizes, payload) for the frame held in r.raw
+//@ spec func rawVerified(r Val) Bool = unle64(r.raw[0], r.raw[1], r.raw[2], r.raw[3], r.raw[4], r.raw[5], r.raw[6], r.raw[7]) == ch128lo(arrayof(r.raw), offset(r.raw) + 16, len(r.raw) - 16) && unle64(r.raw[8], r.raw[9], r.raw[10], r.raw[11], r.raw[12], r.raw[13], r.raw[14], r.raw[15]) == ch128hi(arrayof(r.raw), offset(r.raw) + 16, len(r.raw) - 16)
+
+//@ contract (r *Reader) readBlock() (err) props(C05,C06,C07,C08)
+//@   requires r != nil && r.reader != nil && len(r.header) == headerSize
+//@   modifies r.pos, r.data, r.raw, r.zstd, contents(r.header), r.reader.pos, r.reader.failed
+//@   alloc 134217728 + 25
+//@   ensures r.reader.failed && !old(r.reader.failed) ==> err != nil {sticky}
+//@   ensures err != nil ==> r.pos >= len(r.data) {err-leaves-empty}
+//@   ensures err == nil ==> r.pos == 0 && len(r.data) <= maxDataSize && len(r.raw) >= headerSize {ok-shape}
+//@   ensures err == nil ==> rawVerified(r) {ok-verified}
+//@   ensures len(r.header) == headerSize
+//@   ensures old(r.reader.pos) <= r.reader.pos && r.reader.pos <= r.reader.end
+
+//@ contract (r *Reader) Read(p) (n, err) props(C05,C06,C07,C08)
+//@   requires r != nil && r.reader != nil && len(r.header) == headerSize && 0 <= r.pos
+//@   modifies r.pos, r.data, r.raw, r.zstd, contents(r.header), r.reader.pos, r.reader.failed, contents(p)
+//@   ensures r.reader.failed && !old(r.reader.failed) ==> err != nil {sticky}
+//@   ensures err != nil ==> n == 0 && r.pos >= len(r.data) {err-hands-out-nothing}
+//@   ensures err == nil ==> 0 <= n && n <= len(p) && n <= r.pos && r.pos <= len(r.data) {ok-bounds}
+//@   ensures err == nil ==> n == min(len(p), len(r.data) - (r.pos - n)) {ok-count}
+//@   ensures err == nil ==> forall k in 0..n :: p[k] == r.data[r.pos - n + k] {ok-bytes}
+//@   ensures len(r.header) == headerSize
